@@ -1,5 +1,5 @@
 (* C19 — Model identifiers never collide with names the generated code uses itself. *)
-From GX Require Import Base Expr Topo Ode Target Sem Capture.
+From GX Require Import Base Expr Topo Ode Target Sem Valid Capture Jax JaxNames.
 Open Scope string_scope.
 Open Scope list_scope.
 
@@ -32,3 +32,21 @@ Theorem C19_renaming_renames_exactly_the_occurring_names :
   forall r e, vars (rename r e) = map r (vars e).
 Proof. exact vars_rename. Qed.
 Print Assumptions C19_renaming_renames_exactly_the_occurring_names.
+
+(* the jax backend keeps its output slots in local variables _values_<i>, as many as the function returns (more
+   than there are states in monitor_values and missing_values).  The generators refuse every model name of the
+   form _values_<digits>; that is sufficient: when no name a validated function binds or reads has that form,
+   reading the slot variables off the final environment gives exactly the array of the numpy function - no slot
+   captures a model name and no model name captures a slot, for any number of slots *)
+Theorem C19_jax_slot_variables_capture_nothing_outside_the_refused_pattern :
+  forall (T : Type) (N : NumOps T) (o : ode) (ss : list string) (inp : inputs T) (wd : bool) f ok,
+    sizes_ok o ss inp -> reserved_free o inp wd = true ->
+    valid_fun o ss inp wd f ok = true ->
+    slot_free slot_name (f_body f) ->
+    exists out, exec_jax_names N slot_name f wd inp = Some out /\ exec N f wd inp = Some out /\ length out = f_nret f.
+Proof. exact @jax_names_equal_numpy. Qed.
+Print Assumptions C19_jax_slot_variables_capture_nothing_outside_the_refused_pattern.
+
+Theorem C19_slot_names_are_pairwise_distinct : forall i j, slot_name i = slot_name j -> i = j.
+Proof. exact slot_name_inj. Qed.
+Print Assumptions C19_slot_names_are_pairwise_distinct.
